@@ -18,3 +18,24 @@ claim(
     "Trusted: CrossHair's symbolic semantics of Python and z3; INV is the right strengthening (base case checked concretely); arena bounds (DESIGN 3.1).",
     "4/C02",
 )
+
+_NOTE = ("Trusted: CrossHair's symbolic semantics of Python and z3; the representation invariant INV (DESIGN 3.2) is the right strengthening; "
+         "arena bounds and stubs listed in the evidence file; floats modelled as reals.")
+
+claim("C03", "One-step induction over request status: the real vehicle update (arrival, pickup, first leg, drop-off, out-of-energy) and the real instruction "
+      "application are executed from arbitrary INV pre-states; the solver decides that status changes only waiting->onboard (one pickup event, fare once, at the origin), "
+      "onboard->done (one drop-off at the destination by the carrying vehicle), that instructions never resolve/lose a request or divert a loaded vehicle; "
+      "cancellation/admission covered by the C11 reader harness.", _NOTE + " Pooling activities are outside the claim.", "4/C03")
+claim("C05", "Per-step conservation decided over all paths of the real charge()/pick_up_trip()/instruction code with symbolic energy, price, balances and counters: "
+      "energy gained == energy dispensed at the charging station, payment sent == received == tariff x energy, fares == request value, instructions move nothing.", _NOTE, "4/C05")
+claim("C07", "One-step induction: I-loc (stationary activity => at the target's cell; travelling route starts at the vehicle and ends at the target; pickup at origin, drop-off at destination) "
+      "is re-established by every instruction (13 activities x 16 instructions) and by every vehicle update, decided by the solver on the real code.", _NOTE, "4/C07")
+claim("C09", "For each of 13 previous activities x 16 instructions with symbolic counters/places/memberships/request records the real apply_instructions either yields the instructed "
+      "activity with its side effects and an exact frame (nothing but vehicle and old/new targets changes) or a state structurally equal to the pre-state (deep comparison, instance ids included); "
+      "plus two-instruction independence and generator/driver precedence harnesses.", _NOTE, "4/C09")
+claim("C10", "One-step induction: after any instruction / default transition the activity's target grants access to the vehicle, over the 5x5 grid of vehicle x target memberships "
+      "(public, f1, f2, both, foreign private); built-in generators checked on emitted pairs.", _NOTE, "4/C10")
+claim("C16", "Persistence as a frame condition of every transition harness: a deep snapshot (taken outside tracing, leaves by reference) of the retained pre-state object equals its snapshot after the call, "
+      "and the same transition applied twice from it gives equal results modulo instance ids.", _NOTE, "4/C16")
+claim("C17", "One-step induction: 'a waiting request that records a modelled vehicle => that vehicle is in DispatchTrip to it' is re-established by every instruction and every vehicle update "
+      "including the out-of-energy path and arrival; dispatcher harness for at-most-one vehicle per request.", _NOTE, "4/C17")
